@@ -679,4 +679,304 @@ example : reuseRead F0 [(1, .str, .str [97]), (0, .int .w0, .int 2), (0, .chan, 
 example : reuseRead F0 [(1, .str, .str [97]), (0, .chan, .nilv)] 1 = .error := by decide
 example : heldGuards (held [(0, .int .w0, .int 2), (0, .named 1 (.int .w64), .int 1)]) = [] := by decide
 
+/-! ## 4. Go → script alone: globals, field reads, method results
+
+The round-trip theorems above carry the guards of BOTH directions.  Reading alone needs one: a
+non-nil pointer to a nil pointer / nil interface (`nilCollapse`).  In particular every DECLARED
+container type — `type Labels []string`, `type IDs []int`, `type Env map[string]string`,
+`type Pair [2]int16`, at any nesting — reads faithfully, although the way back mishandles pointers
+to them (C08-declared-container-type). -/
+
+/-- **Full statement, reading.**  For every Go type, every value of it and both converter entry
+    points: `From` never panics, and the object it gives represents the value. -/
+def C08_full_read : Prop :=
+  ∀ (F : FOps) (m : Mode) (ty : GoTy) (v : GoVal), hasTy ty v = true →
+    specRead F ty v (fromGo F m ty v) = true
+
+/-- a non-nil `**int` pointing to a nil `*int` reads as `nil` -/
+theorem C08_counterexample_read : ¬ C08_full_read := by
+  intro h
+  have := h F0 .create (.ptr (.ptr (.int .w0))) (.ptr .nilv) (by decide)
+  revert this
+  decide
+
+/-- **Partial statement (reading).**  For ALL types of any depth — declared slice / array / map /
+    pointer types and pointers to interfaces included —, all well-typed values, both entry points:
+    under `readClean` (no non-nil pointer / interface holding a nil pointer / nil interface on the
+    way) `From` does not panic and either rejects the value or gives an object representing it. -/
+theorem C08_partial_read (F : FOps) (hF : ∀ b, F.narrow (F.widen b) = b)
+    (m : Mode) (ty : GoTy) (v : GoVal) (ht : hasTy ty v = true) (hcl : readClean m ty v = true) :
+    specRead F ty v (fromGo F m ty v) = true := by
+  by_cases hc : convOK ty = true
+  · have hv : Finding.nilCollapse ∉ valGuards m ty v := by
+      unfold readClean at hcl
+      intro hm
+      simp at hcl
+      exact hcl hm
+    rcases read_val F hF v m ty hc ht hv with he | ⟨o, h1, h2, _⟩
+    · simp [he, specRead]
+    · simp [h1, specRead, h2]
+  · have hc' : convOK ty = false := by simpa using hc
+    have : fromGo F m ty v = .error := by unfold fromGo; simp [hc']
+    simp [this, specRead]
+
+/-- the same for a global of `risor.Eval` -/
+theorem C08_partial_read_global (F : FOps) (hF : ∀ b, F.narrow (F.widen b) = b)
+    (ty : GoTy) (v : GoVal) (ht : hasTy ty v = true) (hcl : readClean .create ty v = true) :
+    specRead F ty v (evalGlobal F (some (ty, v))) = true :=
+  C08_partial_read F hF .create ty v ht hcl
+
+/-- the same for a field read through a proxy (`Proxy.GetAttr`): the script reads an object
+    representing what the field holds (a struct-typed field: a proxy of a pointer to it) -/
+theorem C08_partial_getattr (F : FOps) (hF : ∀ b, F.narrow (F.widen b) = b)
+    (pty : GoTy) (xs : Vals) (i : Nat) (ft : GoTy) (x : GoVal)
+    (hpf : proxyField pty i = some ft) (hx : xs.nth i = some x) (ht : hasTy ft x = true)
+    (hcl : readClean .get (fieldConvTy ft) (if isStructKind ft then .ptr x else x) = true) :
+    specRead F (fieldConvTy ft) (if isStructKind ft then .ptr x else x)
+      (getAttr F pty (.ptr (.struct xs)) i) = true := by
+  unfold getAttr
+  by_cases hc : convOK pty = false
+  · simp [hc, specRead]
+  · simp only [hc, getAttrCore, hpf, hx]
+    apply C08_partial_read F hF .get _ _ _ hcl
+    cases hs : isStructKind ft with
+    | true => simpa [fieldConvTy, hs, hasTy, under] using ht
+    | false => simpa [fieldConvTy, hs] using ht
+
+/-- the guard of the read direction is weaker than the guard of the round trip -/
+theorem clean_readClean (m : Mode) (ty : GoTy) (v : GoVal) (h : clean m ty v = true) :
+    readClean m ty v = true := by
+  unfold clean crossGuards at h
+  have hv : valGuards m ty v = [] := by
+    cases h1 : tyGuards ty <;> cases h2 : valGuards m ty v <;> simp_all
+  simp [readClean, hv]
+
+def strVals : List (List Nat) → Vals
+  | [] => .nil
+  | s :: r => .cons (.str s) (strVals r)
+
+def strObjs : List (List Nat) → Objs
+  | [] => .nil
+  | s :: r => .cons (.str s) (strObjs r)
+
+theorem fromVals_strs (F : FOps) : ∀ ss : List (List Nat), fromVals F .str (strVals ss) = .ok (strObjs ss)
+  | [] => rfl
+  | s :: r => by
+    have ih := fromVals_strs F r
+    have h1 : fromGo F .create .str (.str s) = .ok (.str s) := rfl
+    simp [strVals, strObjs, fromVals, h1, ih]
+
+/-- **`type Labels []string`.**  A value of ANY declared type over `[]string` — whatever its name,
+    through either entry point, of any length — reaches the script as the list of its strings: no
+    panic, no error, nothing lost. -/
+theorem C08_named_string_slice (F : FOps) (m : Mode) (id : Nat) (ss : List (List Nat)) :
+    fromGo F m (.named id (.slice .str)) (.seq (strVals ss)) = .ok (.list (strObjs ss)) := by
+  have hsel : sel m (.named id (.slice .str)) = .slice .str := by
+    cases m <;> simp [sel, getSel, isScalarKind, under]
+  simp [fromGo, convOK, hsel, fromVals_strs, Outcome.map]
+
+/-- the same value nested: `[]Labels`, `map[string]Labels`, a `Labels` struct field -/
+example : fromGo F0 .create (.slice (.named 16 (.slice .str))) (.seq (.cons (.seq (.cons (.str [97]) .nil)) .nil))
+    = .ok (.list (.cons (.list (.cons (.str [97]) .nil)) .nil)) := by decide
+example : getAttr F0 (.ptr (.struct (.cons (.named 16 (.slice .str)) .nil)))
+    (.ptr (.struct (.cons (.seq (.cons (.str [97]) (.cons (.str [98]) .nil))) .nil))) 0
+    = .ok (.list (.cons (.str [97]) (.cons (.str [98]) .nil))) := by decide
+-- declared container types satisfy the read guard, not the round-trip guard
+example : readClean .create (.named 16 (.slice .str)) (.seq (.cons (.str [97]) .nil)) = true := by decide
+example : clean .create (.named 16 (.slice .str)) (.seq (.cons (.str [97]) .nil)) = false := by decide
+example : readClean .create (.ptr (.named 10 (.slice (.int .w0)))) (.ptr (.seq .nil)) = true := by decide
+example : readClean .create (.slice (.ptr (.int .w0))) (.seq (.cons .nilv .nil)) = true := by decide
+example : readClean .create (.ptr (.ptr (.int .w0))) (.ptr .nilv) = false := by decide
+
+/-! ## 5. A map where Go wants a struct; one converter, many conversions
+
+A script may pass a map where a Go method parameter, a slice / array / map element or a field has
+a struct type: `StructConverter.To` makes a NEW struct, sets the fields the map names and leaves
+every other field zero.  The write theorems of section 2 cover this (`repr` of a struct by a map:
+`reprFields`); the statements below spell out what they say about it, and that a converter —
+ONE per Go type for the whole process — keeps nothing from one conversion to the next. -/
+
+theorem place_nth (ps : List (Nat × GoVal)) : ∀ (fs : Fields) (j i : Nat) (ft : GoTy),
+    fs.nth i = some ft → (place j fs ps).nth i = some ((ps.lookup (j + i)).getD (zero ft))
+  | .nil, _, _, _, h => by simp [Fields.nth] at h
+  | .cons t r, j, 0, ft, h => by
+    simp only [Fields.nth, Option.some.injEq] at h
+    subst h; simp [place, Vals.nth]
+  | .cons t r, j, i + 1, ft, h => by
+    simp only [Fields.nth] at h
+    have := place_nth ps r (j + 1) i ft h
+    rw [show j + 1 + i = j + (i + 1) by omega] at this
+    simpa [place, Vals.nth] using this
+
+theorem toFieldVals_unnamed (F : FOps) (fs : Fields) (i : Nat) : ∀ (os : Objs) (ks : List (List Nat))
+    (ps : List (Nat × GoVal)), toFieldVals F fs ks os = .ok ps →
+    entryFor fs.length i ks os = none → ps.lookup i = none
+  | .nil, ks, ps, h, _ => by
+    cases ks <;> simp [toFieldVals] at h <;> subst h <;> rfl
+  | .cons o r, [], ps, h, _ => by
+    simp [toFieldVals] at h; subst h; rfl
+  | .cons o r, k :: ks, ps, h, he => by
+    have hne : fieldIdx fs.length k ≠ some i := by
+      intro e; simp [entryFor, e] at he
+    have he' : entryFor fs.length i ks r = none := by
+      simpa [entryFor, hne] using he
+    unfold toFieldVals at h
+    split at h
+    · exact toFieldVals_unnamed F fs i r ks ps h he'
+    · rename_i j hj
+      split at h
+      · exact toFieldVals_unnamed F fs i r ks ps h he'
+      · split at h
+        · cases h
+        · cases h
+        · split at h
+          · split at h
+            · rename_i ps' hps
+              simp only [Outcome.ok.injEq] at h
+              subst h
+              have hij : (i == j) = false := by
+                have : ¬ i = j := fun e => hne (by rw [hj, e])
+                simp [this]
+              simp [List.lookup, hij, toFieldVals_unnamed F fs i r ks ps' hps he']
+            · cases h
+            · cases h
+          · cases h
+          · cases h
+
+/-- **Fields the map does not name are zero.**  For every struct type, every map object and every
+    float semantics, WITHOUT any guard: when `StructConverter.To` accepts a map, each field that no
+    key of the map names holds its zero value in the struct Go receives — whatever the converter
+    converted before. -/
+theorem C08_map_struct_unnamed_zero (F : FOps) (m : Mode) (b : GoTy) (fs : Fields)
+    (ks : List (List Nat)) (os : Objs) (d : GoTy) (v : GoVal)
+    (hsel : sel m b = .structV) (hu : under b = .struct fs)
+    (h : toBase F m b (.map ks os) = .ok (some (d, v))) :
+    d = b ∧ ∃ xs, v = .struct xs ∧
+      ∀ i ft, fs.nth i = some ft → entryFor fs.length i ks os = none → xs.nth i = some (zero ft) := by
+  have hf : fieldsOf b = fs := by simp [fieldsOf, hu]
+  simp only [toBase, hsel, hf] at h
+  cases hp : toFieldVals F fs ks os with
+  | error => simp [hp] at h
+  | panic => simp [hp] at h
+  | ok ps =>
+    simp only [hp, Outcome.ok.injEq, Option.some.injEq, Prod.mk.injEq] at h
+    refine ⟨h.1.symm, place 0 fs ps, by rw [← h.2]; simp [fillStruct, hu], ?_⟩
+    intro i ft hi he
+    have := place_nth ps fs 0 i ft hi
+    simpa [toFieldVals_unnamed F fs i os ks ps hp he] using this
+
+/-- **Partial statement (a map for a struct).**  For every struct-typed slot (declared or not),
+    every map object with well-formed values: under `fieldWriteGuards … = []` (per entry that names
+    a field: the guards of writing that field, and no `nil` value) the conversion does not panic,
+    and when it is accepted the struct Go receives is represented by the map — every named field
+    holds what the map gives for it, every other field is zero. -/
+theorem C08_partial_map_struct (F : FOps) (m : Mode) (b : GoTy) (ks : List (List Nat)) (os : Objs)
+    (hsel : sel m b = .structV) (hc : convOK b = true) (hw : wfWs os = true)
+    (hg : fieldWriteGuards F (fieldsOf b) ks os = []) :
+    toBase F m b (.map ks os) = .error ∨
+    ∃ v, toBase F m b (.map ks os) = .ok (some (b, v)) ∧ repr F b v (.map ks os) = true := by
+  obtain ⟨hsk, _⟩ := sel_structV_inv m b hsel
+  rcases wfields F os ks (fieldsOf b) (fieldsOK_fieldsOf b hc) hw hg with he | ⟨ps, h1, h2⟩
+  · left; simp [toBase, hsel, he]
+  · exact Or.inr ⟨fillStruct b ps, by simp [toBase, hsel, h1], fill_repr F b hsk ks os ps h2⟩
+
+/-- **A conversion does not depend on earlier conversions.**  For every series of script objects
+    written through the converter of one type: result `k` is the result of converting object `k`
+    alone. -/
+theorem C08_seq_independent (F : FOps) (m : Mode) (ty : GoTy) (os : List Obj) (k : Nat) :
+    (toSlotSeq F m ty os)[k]? = (os[k]?).map (toSlot F m ty) := by
+  simp [toSlotSeq]
+
+theorem C08_call_seq_independent (F : FOps) (pt : GoTy) (os : List Obj) (k : Nat) :
+    (callSeq F pt os)[k]? = (os[k]?).map (callEcho F pt) := by
+  simp [callSeq]
+
+/-- **Partial statement (series).**  For every series of any length in which every object is
+    well-formed and within the write guards: every single write of the series is faithful or
+    rejected (`specWriteSeq`), whatever was converted before it. -/
+theorem C08_partial_seq (F : FOps) (m : Mode) (ty : GoTy) : ∀ (os : List Obj),
+    (∀ o ∈ os, wfW o = true ∧ writeAllGuards F m ty o = []) →
+    specWriteSeq F ty os (toSlotSeq F m ty os) = true
+  | [], _ => rfl
+  | o :: r, h => by
+    have h0 := h o (by simp)
+    have ih := C08_partial_seq F m ty r (fun o' ho' => h o' (by simp [ho']))
+    have := C08_partial_write F m ty o h0.1 h0.2
+    simp only [toSlotSeq, List.map_cons, specWriteSeq, this, Bool.true_and]
+    exact ih
+
+/-! ### the contrast: a scratch struct that is reused -/
+
+theorem overlay_zero (ps : List (Nat × GoVal)) : ∀ (fs : Fields) (j : Nat),
+    overlay j (zeroFields fs) ps = place j fs ps
+  | .nil, _ => rfl
+  | .cons t r, j => by simp [zeroFields, overlay, place, overlay_zero ps r (j + 1)]
+
+/-- the FIRST conversion through a fresh scratch struct is the code's -/
+theorem pooled_first_is_fresh (F : FOps) (fs : Fields) (ks : List (List Nat)) (os : Objs) :
+    pooledSeq F fs (zeroFields fs) [(ks, os)] = freshSeq F fs [(ks, os)] := by
+  cases h : toFieldVals F fs ks os <;> simp [pooledSeq, freshSeq, h, Outcome.map, overlay_zero]
+
+theorem overlay_nth (ps : List (Nat × GoVal)) : ∀ (xs : Vals) (j i : Nat) (x : GoVal),
+    xs.nth i = some x → ps.lookup (j + i) = none → (overlay j xs ps).nth i = some x
+  | .nil, _, _, _, h, _ => by simp [Vals.nth] at h
+  | .cons y r, j, 0, x, h, hl => by
+    simp only [Vals.nth, Option.some.injEq] at h
+    subst h
+    simp only [Nat.add_zero] at hl
+    simp [overlay, Vals.nth, hl]
+  | .cons y r, j, i + 1, x, h, hl => by
+    simp only [Vals.nth] at h
+    rw [show j + (i + 1) = j + 1 + i by omega] at hl
+    simpa [overlay, Vals.nth] using overlay_nth ps r (j + 1) i x h hl
+
+/-- **what a reused scratch struct does**: after any conversion through it, a field that the
+    current map does not name still holds what the scratch struct held before — the value an
+    EARLIER conversion wrote -/
+theorem pooled_leaks (F : FOps) (fs : Fields) (scratch : Vals) (ks : List (List Nat)) (os : Objs)
+    (rest : List (List (List Nat) × Objs)) (xs : Vals) (i : Nat) (x : GoVal)
+    (h : (pooledSeq F fs scratch ((ks, os) :: rest))[0]? = some (.ok xs))
+    (hx : scratch.nth i = some x) (he : entryFor fs.length i ks os = none) :
+    xs.nth i = some x := by
+  cases hp : toFieldVals F fs ks os with
+  | error => simp [pooledSeq, hp] at h
+  | panic => simp [pooledSeq, hp] at h
+  | ok ps =>
+    simp only [pooledSeq, hp, List.getElem?_cons_zero, Option.some.injEq, Outcome.ok.injEq] at h
+    subst h
+    exact overlay_nth ps scratch 0 i x hx (by simpa using toFieldVals_unnamed F fs i os ks ps hp he)
+
+/-- `E(p Point)` called with `{F0: 3, F1: "x"}` and then with `{F1: "y"}`: the code passes
+    `{0 "y"}` the second time; through a reused scratch struct the method would receive `{3 "y"}` —
+    an argument the script never passed -/
+theorem pooled_counterexample :
+    let fs := Fields.cons (.int .w0) (.cons .str .nil)
+    let m1 : List (List Nat) × Objs := ([[70, 48], [70, 49]], .cons (.int 3) (.cons (.str [120]) .nil))
+    let m2 : List (List Nat) × Objs := ([[70, 49]], .cons (.str [121]) .nil)
+    freshSeq F0 fs [m1, m2] =
+      [.ok (.cons (.int 3) (.cons (.str [120]) .nil)), .ok (.cons (.int 0) (.cons (.str [121]) .nil))] ∧
+    pooledSeq F0 fs (zeroFields fs) [m1, m2] =
+      [.ok (.cons (.int 3) (.cons (.str [120]) .nil)), .ok (.cons (.int 3) (.cons (.str [121]) .nil))] ∧
+    reprFields F0 2 0 fs (.cons (.int 0) (.cons (.str [121]) .nil)) m2.1 m2.2 = true ∧
+    reprFields F0 2 0 fs (.cons (.int 3) (.cons (.str [121]) .nil)) m2.1 m2.2 = false := by
+  decide
+
+/-- the code's conversion of that second map, as a method argument: `{0 "y"}` -/
+theorem C08_struct_arg_from_map :
+    callArg F0 (.named 13 (.struct (.cons (.int .w0) (.cons .str .nil))))
+      (.map [[70, 49]] (.cons (.str [121]) .nil)) = .ok (.struct (.cons (.int 0) (.cons (.str [121]) .nil))) := by
+  decide
+
+-- non-vacuity: a map for a struct inside a list, within the guards; a nil entry and a struct-typed
+-- field are outside them
+example : writeAllGuards F0 .get (.slice (.named 13 (.struct (.cons (.int .w0) (.cons .str .nil)))))
+    (.list (.cons (.map [[70, 48]] (.cons (.int 5) .nil)) (.cons (.map [[70, 49], [122]] (.cons (.str [97]) (.cons (.int 1) .nil))) .nil))) = [] := by
+  decide
+example : toSlot F0 .get (.slice (.named 13 (.struct (.cons (.int .w0) (.cons .str .nil)))))
+    (.list (.cons (.map [[70, 48]] (.cons (.int 5) .nil)) (.cons (.map [[70, 49], [122]] (.cons (.str [97]) (.cons (.int 1) .nil))) .nil)))
+    = .ok (.seq (.cons (.struct (.cons (.int 5) (.cons (.str []) .nil))) (.cons (.struct (.cons (.int 0) (.cons (.str [97]) .nil))) .nil))) := by
+  decide
+example : fieldWriteGuards F0 (.cons (.ptr (.int .w0)) .nil) [[70, 48]] (.cons .nil .nil) ≠ [] := by decide
+example : toBase F0 .get (.struct (.cons (.ptr (.int .w0)) .nil)) (.map [[70, 48]] (.cons .nil .nil)) = .panic := by decide
+
 end Risor.C08
